@@ -11,12 +11,19 @@
 (***************************************************************************)
 EXTENDS MapOps, Json
 
-CONSTANTS MaxSets, MaxTog, MaxActive, Export
+CONSTANTS MaxSets, MaxTog, MaxActive, Export,
+          MergeFull   \* TRUE: incr_merge inputs range over all Maps; FALSE: over MergeMapsQuick
 
 VARIABLES hist, nsets, ntog, active
 mcvars == <<st, hist, nsets, ntog, active>>
 
 UsedVars == UNION {ReadSet(o) : o \in active}
+
+\* incr_merge has two inputs, i.e. the square of the input space: the quick family uses five
+\* maps (empty, one key, two keys, unchanged-key / changed-key / inserted / removed
+\* transitions between them, and the Both(0, 0) -> None case)
+MergeMapsQuick == {EmptyMap, (1 :> 0), (1 :> 1) @@ (2 :> 0), (2 :> 1), (1 :> 0) @@ (2 :> 1)}
+MapsFor(w) == IF w = "in" \/ MergeFull THEN Maps ELSE MergeMapsQuick \cap Maps
 
 Expect(s) ==
   LET O == {o \in Ops : s.op[o].observed} IN
@@ -29,7 +36,7 @@ MCInit == /\ st = InitState
           /\ active \in {A \in SUBSET Ops : Cardinality(A) \in 1..MaxActive}
 
 MCSet == /\ nsets < MaxSets
-         /\ \E w \in UsedVars, m \in Maps :
+         /\ \E w \in UsedVars : \E m \in MapsFor(w) :
                /\ st' = SetInputOp(st, w, m)
                /\ hist' = Append(hist, [a |-> "set", which |-> w, m |-> MapSeq(m)])
          /\ nsets' = nsets + 1
@@ -61,7 +68,11 @@ MCStabilise == /\ ~st.clean
 MCNext == MCSet \/ MCObserve \/ MCUnobserve \/ MCStabilise
 MCSpec == MCInit /\ [][MCNext]_mcvars
 
-View == <<st, nsets, ntog, active>>
+\* The versions only matter through the comparisons "input version > version at last run":
+\* the view keeps those booleans instead of the counters (a bisimulation quotient).
+ViewOp(o) == [st.op[o] EXCEPT !.ranInputVersion =
+                 [i \in DOMAIN Reads(o) |-> st.ver[Reads(o)[i]] > st.op[o].ranInputVersion[i]]]
+View == <<st.inp, st.node, st.clean, [o \in active |-> ViewOp(o)], nsets, ntog, active>>
 
 \* Behaviour export: one REPLAY line per maximal behaviour, i.e. per Stabilise transition
 \* taken after the last SetInput.  It is printed from the action (not from an invariant on
